@@ -127,9 +127,17 @@ func VerifC13_DecoratorMalformedResponse() {
 	}
 	rt.Cover("malformed")
 	if what == "valid-null-null-valid" {
-		// null entries are dropped, the real attachments are applied (namespace defaulted)
-		rt.Assert(err == nil, "decorator/nulls-between-valid-attachments/error")
-		rt.Assert(w.Srv.Peek("configmaps", "ns", "a") != nil && w.Srv.Peek("configmaps", "ns", "b") != nil, "decorator/nulls-between-valid-attachments/attachment-not-created-in-target-namespace")
+		// The property allows both outcomes for null entries: a normal sync
+		// (nulls dropped, the real attachments applied, namespace defaulted) or
+		// a rejection - and then nothing is written on the strength of it.
+		if err == nil {
+			rt.Cover("nulls-between-valid/normal-sync")
+			rt.Assert(w.Srv.Peek("configmaps", "ns", "a") != nil && w.Srv.Peek("configmaps", "ns", "b") != nil, "decorator/nulls-between-valid-attachments/attachment-not-created-in-target-namespace")
+		} else {
+			for _, r := range w.Srv.Writes() {
+				rt.Assert(r.Resource != "configmaps", "decorator/nulls-between-valid-attachments/rejected-but-child-written")
+			}
+		}
 	}
 	for _, r := range w.Srv.Writes() {
 		rt.Assert(r.Resource == "things" || r.Resource == "configmaps", "decorator/write-to-undeclared-resource")
